@@ -209,24 +209,26 @@ def pdCollect (f : Frame) (rf : PdFilter) : List Cell → List (Cell × List Cel
       | .ok xs =>
         pdCollect f rf ns (if acc.any (·.1 == n) then acc.map (fun p => if p.1 == n then (n, xs) else p) else acc ++ [(n, xs)])
 
+/-- the "checking data length if multiple columns" block of `to_pandas` -/
+def pdCheck (f : Frame) (names : List Cell) : Except Err Unit :=
+  match names[0]? with                                      -- `col_to_convert[0]`
+  | Option.none => .error (.oob "col_to_convert[0]")
+  | some n0 =>
+    match f.getE n0 with
+    | .error e => .error e
+    | .ok c0 => pdCheckLengths f c0.data.length names
+
 /-- `DataFrame.to_pandas`: the columns of the returned pandas frame -/
 def toPandas (f : Frame) (rf : PdFilter) (cf : ColFilter) : Except Err (List (Cell × List Cell)) :=
-  let check (names : List Cell) : Except Err Unit :=
-    match names[0]? with                                      -- `col_to_convert[0]`
-    | Option.none => .error (.oob "col_to_convert[0]")
-    | some n0 =>
-      match f.getE n0 with
-      | .error e => .error e
-      | .ok c0 => pdCheckLengths f c0.data.length names
   match cf with
   | .invalid => .error (.keyError "not a field name")
   | .one n => pdCollect f rf [n] []
   | .none =>
-    match check f.keys with
+    match pdCheck f f.keys with
     | .error e => .error e
     | .ok _ => pdCollect f rf f.keys []
   | .many names =>
-    match check names with
+    match pdCheck f names with
     | .error e => .error e
     | .ok _ => pdCollect f rf names []
 
